@@ -19,7 +19,7 @@ from streamflow.workflow.token import IterationTerminationToken, ListToken, Term
 
 from sfv.framework import Ctx, Property
 from sfv.rt import stepdrive as sd
-from sfv.rt.loop import run_controlled
+from sfv.rt.loop_safe import run_controlled
 from sfv.rt.sfctx import make_context
 from sfv.translate import loopguards
 
